@@ -52,6 +52,9 @@ const (
 	KUnion    = "union"
 	KInter    = "intersection"
 	KExcl     = "exclusion"
+	// KUnset: a userset message with no branch of its oneof set ({} in JSON) - a
+	// malformed rewrite the builders must refuse wherever it stands
+	KUnset = "unset"
 )
 
 type Expr struct {
@@ -247,6 +250,8 @@ func exprToProto1(e *Expr) *openfgav1.Userset {
 	case KExcl:
 		ch := childrenToProto(e)
 		return &openfgav1.Userset{Userset: &openfgav1.Userset_Difference{Difference: &openfgav1.Difference{Base: ch[0], Subtract: ch[1]}}}
+	case KUnset:
+		return &openfgav1.Userset{}
 	}
 	panic("bad expr kind " + e.Kind)
 }
@@ -396,6 +401,8 @@ func exprDSL(e *Expr, direct []Ref, top bool) string {
 		return e.Rel
 	case KTTU:
 		return e.Rel + " from " + e.Tupleset
+	case KUnset:
+		return "<unset>"
 	}
 	var sep string
 	switch e.Kind {
